@@ -27,6 +27,7 @@ def pick_reps(am, stmts, maxn):
         # transition set in the order met (so that short strings over the chosen bytes get as deep into the program as possible),
         # plus one byte no explicit set names
         order = []
+        seconds = []
         seen = set()
         start = am.dfa.starting_state
         queue = [start]
@@ -40,6 +41,9 @@ def pick_reps(am, stmts, maxn):
                     pick = next((v for v in vals if v in reps), vals[0])
                     if pick not in order:
                         order.append(pick)
+                    hi = next((v for v in reversed(vals) if v in reps), vals[-1])     # the other end of the class ($last may tell them apart)
+                    if hi != pick and hi not in seconds:
+                        seconds.append(hi)
                 nxt.append(t.target)
                 for a in t.actions:
                     for sub in a.all_subactions():
@@ -48,10 +52,15 @@ def pick_reps(am, stmts, maxn):
                 if x is not None and id(x) not in seen:
                     seen.add(id(x))
                     queue.append(x)
-        other = [r for r in reps if r not in order]
-        reps = order[:maxn - 1] + other[:1]
-        if len(reps) < maxn:
-            reps += [r for r in order[maxn - 1:] + other[1:]][:maxn - len(reps)]
+        seconds = [r for r in seconds if r not in order]
+        other = [r for r in reps if r not in order and r not in seconds]
+        nfirst = max(maxn - 1 - min(len(seconds), max(1, maxn // 3)), 1)
+        chosen = order[:nfirst]
+        chosen += seconds[:maxn - 1 - len(chosen)]
+        chosen += other[:1]
+        if len(chosen) < maxn:
+            chosen += [r for r in order[nfirst:] + seconds + other[1:] if r not in chosen][:maxn - len(chosen)]
+        reps = chosen
     return sorted(set(reps))[:maxn]
 
 
@@ -91,7 +100,7 @@ def check_program(item):
         return res
     with cp:
         script = cp.op_exhaust(L, reps, do_end=am.eof)
-        wits = [w for w in conform.am_witnesses(am, reps, limit=25, maxlen=20) if len(w) > L]
+        wits = [w for w in conform.am_witnesses(am, reps, limit=25, maxlen=20) if len(w) > L] + list(progs.FEATURE_WITNESSES.get(label, []))
         for w in wits:
             script += cp.op_witness(w, do_end=am.eof)
         recs, status = cp.run(script, timeout=60)
@@ -111,7 +120,7 @@ def check_program(item):
         for w, r in zip(wits, recs[1:]):
             res["wschedules"] += r[1]["schedules"]
             if r[1]["diffs"]:
-                res["problems"].append(dict(kind="chunking-long", what="input %r: %d of %d cut patterns differ from the one-chunk run (first mask %s)" % (w, r[1]["diffs"], r[1]["schedules"], bin(r[1]["mask"])),
+                res["problems"].append(dict(kind="chunking-long", what="input %r: %d of %d cut patterns differ from the one-chunk run (first: %s)" % (w, r[1]["diffs"], r[1]["schedules"], "a cut after every byte" if r[1]["mask"] == 0x7fffffff else "one cut after byte %d" % r[1]["mask"]),
                                             input=w.hex(), mask=r[1]["mask"]))
                 break
     return res
